@@ -217,7 +217,7 @@ def main():
                            "detail": f"{len(groups)} obligation(s) not discharged: " + ", ".join(sorted(groups))[:600]})
 
     proved = (not untranslatable) and not bad
-    level = "proof" if proved or (not untranslatable and not bad_new) else "other"
+    level = P.get("level", "proof") if proved or (not untranslatable and not bad_new) else "other"
     ev = {
         "property_id": pid, "tier": a.tier, "seed": seed, "level": level,
         "coverage": {
